@@ -358,6 +358,9 @@ func Gen(prop, tier string, seed uint64) *kernel.Plan {
 			}
 			evs = append(evs, e)
 		}
+		if prop == "C17" && g.Chance(1, 30) {
+			evs = append(evs, Ev{T: "parcoll", S: g.U64() % 100000})
+		}
 		if (prop == "C11" || prop == "C19") && g.Chance(1, 8) {
 			evs = append(evs, Ev{T: "patchsync", A: a, S: g.U64() % 100000})
 		}
